@@ -16,7 +16,8 @@ keys = st.sampled_from(KEYS)
 leaf = st.one_of(st.none(), st.booleans(), st.integers(-2, 9), st.sampled_from(["", "s", "abc", "0"]))
 docs = st.recursive(leaf, lambda c: st.one_of(st.lists(c, max_size=4), st.dictionaries(keys, c, max_size=4)),
                     max_leaves=12)
-BAD_INDEX = ["-", "-1", "01", "+1", " 1", "1 ", "1_0", "1.0", "１", "", "a", "0x1", "1e0", "٠", "00"]
+BAD_INDEX = ["-", "-1", "01", "+1", " 1", "1 ", "1_0", "1.0", "１", "", "a", "0x1", "1e0", "٠", "00",
+             "9" * 25, "1" + "0" * 5000, "9" * 4301]
 OPTIONAL = list("~!$&'()*+,;=:@/?-._") + list("abAB019")
 
 
